@@ -48,6 +48,32 @@ func derivesFromRecv(p *core.Prog, e *core.Expr, recv *ssa.Parameter) bool {
 			return false // fresh copy
 		case "append":
 			return derivesFromRecv(p, e.Args[0], recv) // result aliases its first argument only
+		case "len", "cap", "copy", "min", "max":
+			return false // numbers
+		}
+		// any other function handed such memory may hand it back (slices.Grow
+		// returns its argument when the capacity suffices, so does slices.Clip, ...)
+		if v, ok := e.Val.(ssa.Value); ok && v != nil && pointerLike(v.Type()) {
+			for _, a := range e.Args {
+				if derivesFromRecv(p, a, recv) {
+					return true
+				}
+			}
+		}
+	}
+	return false
+}
+
+// pointerLike: values of the type can share memory with something else.
+func pointerLike(t types.Type) bool {
+	switch u := t.Underlying().(type) {
+	case *types.Slice, *types.Map, *types.Pointer, *types.Interface, *types.Chan, *types.Signature:
+		return true
+	case *types.Tuple:
+		for i := 0; i < u.Len(); i++ {
+			if pointerLike(u.At(i).Type()) {
+				return true
+			}
 		}
 	}
 	return false
@@ -121,6 +147,7 @@ func c15Targets(p *core.Prog, r *core.Run, pre string) {
 		return nil, false
 	}
 	nIn, nOut := 0, 0
+	hintFields := map[string]int{}
 	for i, s := range allCalls(p, []*ssa.Function{iter}) {
 		if s.X.Fn != add || len(s.X.Args) != 4 {
 			continue
@@ -221,6 +248,7 @@ func c15Targets(p *core.Prog, r *core.Run, pre string) {
 			v, ok := isRec(ip.Args[0].Args[0])
 			if ok && v == rv {
 				src = "hints"
+				hintFields[ip.Args[0].Name]++
 			}
 		}
 		// PORT: the record's own port, when it has one, is the last word (the
@@ -269,6 +297,7 @@ func c15Targets(p *core.Prog, r *core.Run, pre string) {
 		}
 		r.Check(pre+".GUARDS", key, okG, pos, "alias-mode records are skipped (%v); %s addresses are used under the right condition (record names a target: %v, names none: %v, origin has no address: %v)", notAlias, src, hasTarget, noTarget, noAddr)
 	}
+	r.Check(pre+".PAIR", "Targets:hint-families", hintFields["IPv4Hint"] == 1 && hintFields["IPv6Hint"] == 1, p.Pos(iter.Pos()), "the record's hints of both address families are offered, each once: %v", hintFields)
 	r.Check(pre+".PAIR", "Targets:emit-sites", nIn == 4 && nOut == 1, p.Pos(iter.Pos()), "four emit sites inside the HTTPS loop (target, origin, IPv4 hints, IPv6 hints) and one after it (found %d and %d)", nIn, nOut)
 
 	// port 80 -> 443 only in the HTTPS loop
@@ -386,6 +415,12 @@ func c15Family(p *core.Prog, r *core.Run, targets *ssa.Function, pre string) {
 		r.Undecided(pre+".GUARDS", "filter", p.Pos(filt.Pos()), "expected one netip.AddrPortFrom in %s, found %d", p.FuncName(filt), len(made))
 		return
 	}
+	// the address that passed the filter is the address offered: the pair is
+	// formed from AddrFromSlice's result itself (unmapping a 16-byte
+	// ::ffff:a.b.c.d afterwards would offer an IPv4 target under tcp6)
+	a0 := made[0].X.Args[0]
+	direct := a0.Op == "ext" && a0.Name == "#0" && a0.Args[0].Op == "call" && a0.Args[0].Name == "net/netip.AddrFromSlice"
+	r.Check(pre+".GUARDS", "filter:address-as-filtered", direct, p.InstrPos(made[0].Instr), "the address/port pair is formed from the converted address as it is: %s", short(a0))
 	netP := targets.Params[1]
 	for _, fam := range []struct {
 		names []string
